@@ -121,6 +121,10 @@ func (p *Process) run() int {
 loop:
 	for {
 		err := p.setStateAndRun(p.getStartingStateName(), p.getProcessStarter())
+		if errors.Is(err, errStopRequested) {
+			log.Debug().Str("process", p.getName()).Msg("process stopped before it was (re)launched")
+			break loop
+		}
 		if err != nil {
 			log.Error().Err(err).Msgf(`Failed to run command ["%v"] for process %s`, strings.Join(p.getCommand(), `" "`), p.getName())
 			p.logBuffer.Write(err.Error())
@@ -204,6 +208,8 @@ func (p *Process) waitForStdOutErr() {
 		p.stdErrDone = nil
 	}
 }
+
+var errStopRequested = errors.New("stop requested before launch")
 
 func (p *Process) getProcessStarter() func() error {
 	return func() error {
@@ -750,6 +756,11 @@ func (p *Process) getStatusName() string {
 func (p *Process) setStateAndRun(state string, runnable func() error) error {
 	p.stateMtx.Lock()
 	defer p.stateMtx.Unlock()
+	// under the state lock, as the running check of stopProcess is: a stop request
+	// either sees the launched command or is seen here
+	if p.isStopped.Load() {
+		return errStopRequested
+	}
 	p.procState.Status = state
 	p.onStateChange(state)
 	return runnable()
